@@ -245,6 +245,40 @@ def publish (s : Store) (tx : UTx) (ans : Answer) : Store × Bool :=
   | .notifyFailed => (removeWithDescendants s1 tx.id, false)     -- fix fd54ea7
   | a => publishTransaction s1 tx.id a
 
+/-- The externally visible steps of one `reliablyPublishTransaction` call, in the order the Go code performs them. -/
+inductive Effect
+  /-- `addRelevantTx` inside the first `walletdb.Update` -/
+  | record
+  /-- `chainClient.NotifyReceived(ourAddrs)`; `ok = false`: it returned an error -/
+  | subscribe (ok : Bool)
+  /-- `chainClient.SendRawTransaction` (inside `publishTransaction`) -/
+  | sendRaw
+  /-- `RemoveUnminedTx` (the tx and its unconfirmed descendants) -/
+  | forget
+deriving DecidableEq, Repr
+
+/-- Order of effects of `reliablyPublishTransaction` (current tree): record → `NotifyReceived` → (only if that
+succeeded) `SendRawTransaction` → roll-back if the hand-over failed.  In particular nothing is handed to the backend
+before the subscription succeeded, so the roll-back of a failed subscription never forgets a published transaction. -/
+def publishEffects : Answer → List Effect
+  | .notifyFailed => [.record, .subscribe false, .forget]
+  | .accepted => [.record, .subscribe true, .sendRaw]
+  | .inMempool => [.record, .subscribe true, .sendRaw]
+  | .alreadyKnown => [.record, .subscribe true, .sendRaw, .forget]
+  | .alreadyConfirmed => [.record, .subscribe true, .sendRaw, .forget]
+  | .rejected => [.record, .subscribe true, .sendRaw, .forget]
+
+def applyEffect (tx : UTx) (s : Store) : Effect → Store
+  | .record => insert s tx
+  | .forget => removeWithDescendants s tx.id
+  | .subscribe _ => s
+  | .sendRaw => s
+
+def runEffects (tx : UTx) (s : Store) (es : List Effect) : Store := es.foldl (applyEffect tx) s
+
+/-- number of `SendRawTransaction` calls the backend sees -/
+def sendCount (es : List Effect) : Nat := (es.filter (· == .sendRaw)).length
+
 /-- `reliablyPublishTransaction` before fix fd54ea7 (finding F10): the error is returned, the record stays. -/
 def publishUnfixed (s : Store) (tx : UTx) (ans : Answer) : Store × Bool :=
   let s1 := insert s tx
@@ -279,5 +313,16 @@ def resendLoop (answers : Nat → Answer) : List UTx → Store → List Nat → 
 
 def resend (s : Store) (answers : Nat → Answer) : Store × List Nat :=
   resendLoop answers (resendList s) s []
+
+/-- Two `RescanFinished` notifications, the second arriving while the re-broadcast goroutine started by the first is
+still blocked in its first `SendRawTransaction`: `rescanProgressHandler` starts `go w.resendUnminedTxs()`
+unconditionally for each, so two goroutines read `UnminedTxs` from the same (still untouched) store and each offers
+its whole list.  Removals are idempotent and `publishTransaction` never inserts, so the store after any interleaving
+is the one after running the two loops one after the other; the ids are reported per goroutine. -/
+def resendTwice (s : Store) (answers : Nat → Answer) : Store × List Nat × List Nat :=
+  let l := resendList s
+  let r1 := resendLoop answers l s []
+  let r2 := resendLoop answers l r1.1 []
+  (r2.1, r1.2, r2.2)
 
 end Publish
